@@ -7,23 +7,54 @@ package oracle
 // Genesis import files EVERY listed feed - with or without recorded values - and puts it in the queue of the state the
 // entry names: a feed missing from its state queue is never found by Start/Pause and its state can no longer change
 // (C17, C12).
+// the number of recorded values of a feed depends only on which of its keys are present
+//@ axiom cntFrameG(F, G, n)
+//@   requires forall c:Int :: has(F, n, c) == has(G, n, c)
+//@   ensures keeper.CNT(F, n) == keeper.CNT(G, n)
+//@ define BCOF(e) = svcbatch(unhex(e.Feed.RequestContextID))
+//@ define VKEY(e, i) = wrap64(BCOF(e) - i)
 //@ func InitGenesis(ctx, k, data)
 //@   property C17, C12
+// the import starts from an empty value table, the listed feeds have pairwise distinct names, and no entry lists more
+// values than its history bound or than its request context has issued batches (all true of an exported state)
+//@   requires forall n:Str :: forall c:Int :: !has(values, n, c)
+//@   requires forall n:Str :: keeper.CNT(values, n) == 0
+//@   requires forall a:Int :: forall b:Int :: 0 <= a && a < b && b < len(data.Entries) ==> data.Entries[a].Feed.FeedName != data.Entries[b].Feed.FeedName
+//@   requires forall j:Int :: 0 <= j && j < len(data.Entries) ==> len(data.Entries[j].Values) <= data.Entries[j].Feed.LatestHistory && len(data.Entries[j].Values) <= BCOF(data.Entries[j]) + 1
+//@   requires forall j:Int :: 0 <= j && j < len(data.Entries) ==> len(data.Entries[j].Values) >= 0
+//@   uses cntFrameG(values, values, "")
 //@   modifies feeds, byCtx, values, fstate
 //@   invariant #1 idx:  rangeindex >= 0 - 1 && rangeindex < len(data.Entries)
 //@   invariant #1 done: forall j:Int :: 0 <= j && j <= rangeindex ==> has(feeds, data.Entries[j].Feed.FeedName)
 //@                         && has(fstate, data.Entries[j].Feed.FeedName, data.Entries[j].State)
 //@                         && has(byCtx, unhex(data.Entries[j].Feed.RequestContextID))
-//@   invariant #2 idx:  rangeindex >= 0 - 1
+//@   invariant #1 vals: forall j:Int :: forall i:Int :: 0 <= j && j <= rangeindex && 0 <= i && i < len(data.Entries[j].Values)
+//@                         ==> has(values, data.Entries[j].Feed.FeedName, VKEY(data.Entries[j], i)) && get(values, data.Entries[j].Feed.FeedName, VKEY(data.Entries[j], i)) == data.Entries[j].Values[i]
+//@   invariant #1 rest: forall j:Int :: rangeindex < j && j < len(data.Entries) ==> keeper.CNT(values, data.Entries[j].Feed.FeedName) == 0
+//@                         && (forall c:Int :: !has(values, data.Entries[j].Feed.FeedName, c))
+//@   invariant #2 idx:  rangeindex >= 0 - 1 && rangeindex < len(rangeover) && rangeindex_1 >= 0 - 1 && rangeindex_1 + 1 < len(data.Entries)
+//@   invariant #2 cur0: rangeover == data.Entries[rangeindex_1 + 1].Values && reqCtx.BatchCounter == BCOF(data.Entries[rangeindex_1 + 1])
 //@   invariant #2 done: forall j:Int :: 0 <= j && j <= rangeindex_1 ==> has(feeds, data.Entries[j].Feed.FeedName)
 //@                         && has(fstate, data.Entries[j].Feed.FeedName, data.Entries[j].State)
 //@                         && has(byCtx, unhex(data.Entries[j].Feed.RequestContextID))
 //@   invariant #2 cur:  has(feeds, data.Entries[rangeindex_1 + 1].Feed.FeedName) && has(byCtx, unhex(data.Entries[rangeindex_1 + 1].Feed.RequestContextID))
+//@   invariant #2 vals: forall j:Int :: forall i:Int :: 0 <= j && j <= rangeindex_1 && 0 <= i && i < len(data.Entries[j].Values)
+//@                         ==> has(values, data.Entries[j].Feed.FeedName, VKEY(data.Entries[j], i)) && get(values, data.Entries[j].Feed.FeedName, VKEY(data.Entries[j], i)) == data.Entries[j].Values[i]
+//@   invariant #2 part: (forall i:Int :: 0 <= i && i <= rangeindex ==> has(values, data.Entries[rangeindex_1 + 1].Feed.FeedName, VKEY(data.Entries[rangeindex_1 + 1], i))
+//@                         && get(values, data.Entries[rangeindex_1 + 1].Feed.FeedName, VKEY(data.Entries[rangeindex_1 + 1], i)) == rangeover[i])
+//@                      && keeper.CNT(values, data.Entries[rangeindex_1 + 1].Feed.FeedName) == rangeindex + 1
+//@                      && (forall c:Int :: has(values, data.Entries[rangeindex_1 + 1].Feed.FeedName, c) ==> (exists i:Int :: 0 <= i && i <= rangeindex && c == VKEY(data.Entries[rangeindex_1 + 1], i)))
+//@   invariant #2 rest: forall j:Int :: rangeindex_1 + 1 < j && j < len(data.Entries) ==> keeper.CNT(values, data.Entries[j].Feed.FeedName) == 0
+//@                         && (forall c:Int :: !has(values, data.Entries[j].Feed.FeedName, c))
 //@   ensures feeds_filed: forall j:Int :: 0 <= j && j < len(data.Entries) ==> has(feeds, data.Entries[j].Feed.FeedName)
 //@                         && has(fstate, data.Entries[j].Feed.FeedName, data.Entries[j].State)
 // ... and is found again by the request context that feeds it (the responses and state changes of that context are
 // looked up through this index: without it an imported feed never receives another value)
 //@   ensures feeds_indexed: forall j:Int :: 0 <= j && j < len(data.Entries) ==> has(byCtx, unhex(data.Entries[j].Feed.RequestContextID))
+// ... and EVERY recorded value listed for it is stored, each under a key of its own: the newest (listed first) under the
+// request context's current batch counter, the i-th older one i counters before (C12, C17)
+//@   ensures values_imported: forall j:Int :: forall i:Int :: 0 <= j && j < len(data.Entries) && 0 <= i && i < len(data.Entries[j].Values)
+//@                         ==> has(values, data.Entries[j].Feed.FeedName, VKEY(data.Entries[j], i)) && get(values, data.Entries[j].Feed.FeedName, VKEY(data.Entries[j], i)) == data.Entries[j].Values[i]
 //@ end
 
 // Genesis export (C12, C17): every feed whose request context the service module knows is exported - with its record as
